@@ -5,7 +5,7 @@ d=$1; shift
 git -C /repo apply --check "$d/patch.diff" || { echo "PATCH DOES NOT APPLY"; exit 9; }
 git -C /repo apply "$d/patch.diff"
 for c in "$@"; do
-  PYVC_EVIDENCE_DIR=/tmp/seed_evidence /verif/check $c > /tmp/seed_eval_$c.log 2>&1; rc=$?
+  PYVC_EVIDENCE_DIR=/tmp/seed_evidence PYVC_REPLAY_DIR=/tmp/seed_replays /verif/check $c > /tmp/seed_eval_$c.log 2>&1; rc=$?
   echo "check $c exit=$rc: $(grep -c '^VIOLATION' /tmp/seed_eval_$c.log) violations; $(grep '^VIOLATION' /tmp/seed_eval_$c.log | head -2 | sed 's/replay=[^ ]* //' | cut -c1-230)"
   grep "^UNDECIDED\|^BROKEN" /tmp/seed_eval_$c.log | head -2 | cut -c1-200
 done
